@@ -1,5 +1,6 @@
 """C08 - From / Into / Constructor preserve field order and invert each other (DESIGN.md §3 C08)."""
 import itertools
+import re
 
 from compile_engine import Case, CompileEngine
 
@@ -90,7 +91,7 @@ def struct_cases(thorough):
         full = sh.lit("S", [sh.fval(i) for i in range(n)])
         semi = ";" if not sh.named else ""
 
-        def mk(desc, sattrs, fattrs, derives, lines):
+        def mk(desc, sattrs, fattrs, derives, lines, impls=None):
             mod = """use super::*;
 #[derive(Debug, PartialEq, Clone, %s)]
 %s
@@ -100,7 +101,8 @@ pub fn run(r: &mut R) {
     %s
 }""" % (", ".join("derive_more::" + d for d in derives), "\n".join(sattrs), sh.body(fattrs), semi, "\n    ".join(lines))
             src = "#[derive(%s)] %s struct S%s" % (", ".join(derives), " ".join(sattrs), " ".join(sh.body(fattrs).split()))
-            cases.append(Case("s%d" % len(cases), mod, meta={"desc": desc, "src": src}))
+            item = "%s pub struct S%s%s" % (" ".join(sattrs), sh.body(fattrs), semi)
+            cases.append(Case("s%d" % len(cases), mod, meta={"desc": desc, "src": src, "item": item, "impls": impls or {}}))
 
         # Constructor + From plain + Into default (round trip)
         lines = ['r.eq("Constructor::new puts the i-th argument into the i-th field", S::new(%s), %s);' % (", ".join(sh.fval(i) for i in range(n)), full),
@@ -108,7 +110,7 @@ pub fn run(r: &mut R) {
                  'r.eq("Into extracts the fields in declaration order", <%s>::from(%s), %s);' % (ft, full, fv),
                  'r.eq("from(into(x)) == x", S::from(<%s>::from(%s)), %s);' % (ft, full, full),
                  'r.eq("no From::from call is needed for the plain forms", calls(), 0);']
-        mk("plain", [], {}, ["Constructor", "From", "Into"], lines)
+        mk("plain", [], {}, ["Constructor", "From", "Into"], lines, impls={"From": 1, "Into": 1, "Constructor": 1})
         if n == 0:
             continue
         # From forward / types; Into types
@@ -117,7 +119,7 @@ pub fn run(r: &mut R) {
         lines = ['r.eq("From forward converts each component into its field", S::from(%s), %s);' % (gv, conv),
                  'r.eq("forward applies exactly one From::from per field", calls(), %d);' % n,
                  'r.eq("forward also covers the field types themselves", S::from(%s), %s);' % (fv, full)]
-        mk("from_forward", ["#[from(forward)]"], {}, ["From"], lines)
+        mk("from_forward", ["#[from(forward)]"], {}, ["From"], lines, impls={"From": 1})
         gt, hT = tup(G), tup(H)
         for style in ("one_attr", "two_attrs"):
             sat = ["#[from(%s, %s)]" % (gt, ft)] if style == "one_attr" else ["#[from(%s)]" % gt, "#[from(%s)]" % ft]
@@ -129,13 +131,13 @@ pub fn run(r: &mut R) {
                      'r.eq("Into<listed type>", <%s>::from(%s), %s);' % (hT, full, hv),
                      'r.eq("exactly one From::from per field (into)", calls(), %d);' % n,
                      'r.eq("Into<own field types> when listed", <%s>::from(%s), %s);' % (ft, full, fv)]
-            mk("types_" + style, sat + iat, {}, ["From", "Into"], lines)
+            mk("types_" + style, sat + iat, {}, ["From", "Into"], lines, impls={"From": 2, "Into": 2})
         # only listed types get an impl
         lines = ['r.eq("From<listed type>", S::from(%s), %s);' % (gv, conv),
                  'r.check("no From<field types> unless listed", !has_from!(S, %s));' % ft,
                  'r.check("no Into<field types> unless listed", !has_from!(%s, S));' % ft,
                  'r.check("Into<listed> exists", has_from!(%s, S));' % hT]
-        mk("types_only_listed", ["#[from(%s)]" % gt, "#[into(%s)]" % hT], {}, ["From", "Into"], lines)
+        mk("types_only_listed", ["#[from(%s)]" % gt, "#[into(%s)]" % hT], {}, ["From", "Into"], lines, impls={"From": 1, "Into": 1})
         # Into reference kinds
         rt, mt = tup(["&" + f for f in F]), tup(["&mut " + f for f in F])
         binds = ["p%d" % i for i in range(n)]
@@ -161,7 +163,7 @@ pub fn run(r: &mut R) {
                 lines += ['r.check("no shared-reference conversion unless selected", !has_from!(%s, &S));' % rt]
             if "m" not in kinds:
                 lines += ['r.check("no mutable-reference conversion unless selected", !has_from!(%s, &mut S));' % mt]
-            mk("into_refs " + sattr, [sattr], {}, ["Into"], lines)
+            mk("into_refs " + sattr, [sattr], {}, ["Into"], lines, impls={"Into": len(kinds)})
         # Into skip: every non-empty proper subset of skipped fields
         if n >= 2:
             for k in range(1, n):
@@ -177,7 +179,7 @@ pub fn run(r: &mut R) {
                                  tup(kb), krt, ", ".join("adr(%s)" % b for b in kb), ", ".join("adr(&s.%s)" % sh.names[i] for i in kept))]
                     if not sh.same or len(kept) != n:
                         lines.append('r.check("no conversion into the full tuple when fields are skipped", !has_from!(%s, S));' % ft)
-                    mk("into_skip", ["#[into(owned, ref)]"], fat, ["Into"], lines)
+                    mk("into_skip", ["#[into(owned, ref)]"], fat, ["Into"], lines, impls={"Into": 2})
         # field-level #[into]
         if n >= 2:
             for i in range(n):
@@ -190,14 +192,14 @@ pub fn run(r: &mut R) {
                     else:
                         lines.append('r.check("no tuple conversion when only a field carries #[into]", !has_from!(%s, S));' % ft)
                     if not sh.same:
-                        mk("into_field", sat, fat, ["Into"], lines)
+                        mk("into_field", sat, fat, ["Into"], lines, impls={"Into": 2 if with_struct else 1})
                 fat = {i: "#[into(owned(%s), ref)]" % H[i]}
                 lines = ["let s = %s;" % full,
                          'r.eq("field-level owned(listed)", <%s>::from(s.clone()), Hx::<%d, %d>(%d));' % (H[i], sh.owner, sh.idx[i], 10 * i + 3),
                          'r.eq("exactly one From::from", calls(), 1);',
                          'r.eq("field-level ref yields the field itself", adr(<&%s>::from(&s)), adr(&s.%s));' % (F[i], sh.names[i])]
                 if not sh.same:
-                    mk("into_field_types", [], fat, ["Into"], lines)
+                    mk("into_field_types", [], fat, ["Into"], lines, impls={"Into": 2})
     return cases
 
 
@@ -233,6 +235,7 @@ def enum_cases(thorough):
             continue  # two blanket impls of the same arity overlap (user error, rejected by coherence)
         explicit = any(a in ("from", "forward", "types") for a in attrs)
         variants, lines = [], []
+        nimpl = 0
         for vi, (k, a) in enumerate(zip(kinds, attrs)):
             named, n = VK[k]
             sh = Shape(vi + 1, n, named, False)
@@ -250,6 +253,8 @@ def enum_cases(thorough):
             plain_impl = (a == "from") or (a == "none" and not explicit and n > 0 and k != "unit")
             if k in ("t0", "n0") and a == "none" and not explicit:
                 plain_impl = False  # empty variants are treated like unit variants (no fields)
+            if plain_impl or a in ("forward", "types") or (VK[k][1] == 0 and a == "from"):
+                nimpl += 1
             if plain_impl:
                 lines.append('r.eq("V%d: From<fields> fills the fields in order", E::from(%s), %s);' % (vi, fv, full))
             elif a in ("forward",):
@@ -272,7 +277,7 @@ pub fn run(r: &mut R) {
     %s
 }""" % (", ".join(variants), "\n    ".join(lines))
         src = "#[derive(From)] enum E { %s }" % ", ".join(" ".join(v.split()) for v in variants)
-        cases.append(Case("e%d" % len(cases), mod, meta={"desc": "enum " + ",".join(attrs), "src": src}))
+        cases.append(Case("e%d" % len(cases), mod, meta={"desc": "enum " + ",".join(attrs), "src": src, "item": "pub enum E { %s }" % ", ".join(variants), "impls": {"From": nimpl}}))
     return cases
 
 
@@ -286,9 +291,30 @@ def run(chk, tier):
                       "into owned/ref/ref_mut selections", "into skip on every proper field subset", "field-level into (with/without struct-level, with types)"])
     chk.part("enums", programs=len(ec), variant_kinds=["unit", "t1", "t2", "n1", "n2"], attrs=VATTR, max_variants=2,
              note="full product of kinds x attribute placements for <=2 variants (+ 3-variant products over a reduced alphabet in thorough)")
+    # ---------------- seam A: the number of impl items each derive generates is exactly the documented one
+    from common import svc
+    reqs, owner = [], []
+    for c in cases:
+        for d, want in sorted(c.meta["impls"].items()):
+            reqs.append({"derive": d, "item": c.meta["item"], "canon": True})
+            owner.append((c, d, want))
+    for (c, d, want), r in zip(owner, svc(reqs)):
+        chk.count(states=1, transitions=1)
+        if r["k"] != "ok":
+            chk.outcome("A-" + r["k"])
+            chk.violation("in-process: derive(%s) %s on a supported input (%s)" % (d, r["k"], c.meta["desc"].split(" ")[0]), c.meta["src"], r.get("msg", "")[:300])
+            continue
+        got = sum(1 for it in r["canon"] if re.search(r"(^|\] )impl\b", it.split("{")[0]))
+        if got == want:
+            chk.outcome("A-impl-count-agrees")
+        else:
+            chk.outcome("A-impl-count-differs")
+            chk.violation("in-process: derive(%s) generates %s impls than documented (%s)" % (d, "more" if got > want else "fewer", c.meta["desc"].split(" ")[0]),
+                          c.meta["src"], "documented: %d impl item(s), expansion has %d" % (want, got))
+    chk.part("A_impl_counts", expansions=len(reqs), oracle="number of impl items in the real expansion == number of documented conversions for that attribute configuration")
     eng = CompileEngine("C08", prelude=PRELUDE, per_bin=max(8, len(cases) // 16 + 1))
     results = eng.run_cases(cases)
-    import re
+    pass
     for c in cases:
         res = results[c.cid]
         chk.count(states=1, transitions=max(res.ncmp, 1))
